@@ -22,8 +22,11 @@ THEOREMS = [NS + t for t in [
 ASSUMPTIONS = [
     "1.x: setters are modelled on the rows of one track (every statement they issue has WHERE id = ?); the only "
     "cross-track coupling is UNIQUE(path) from 1.11.1 on, which is part of the database-level step",
-    "1.x: the multi-statement setters without a transaction scope (set_bpm, set_last_played_at, set_relative_path) are "
-    "modelled by their net effect; failure between their statements is C14's subject, not C06's",
+    "1.x: every multi-statement setter (set_bpm, set_duration, set_key, set_last_played_at, set_relative_path, "
+    "set_sample_count / _rate, set_waveform) runs inside one sqlite_transaction scope in the current code and is modelled "
+    "by its net effect (a throw carries no new state); a failure injected between their statements is C14's subject, a "
+    "statement failing by itself (missing PerformanceData row, guard) is observed by the tie: a call that threw must leave "
+    "every getter and the snapshot of its track unchanged",
     "1.x: NaN is outside the quantifier (Spec.finiteArg; matters for set_bpm only: SQLite stores a NaN REAL as NULL); "
     "std::ceil enters only through the explicit hypothesis CeilInRange of v1_C06_never_ub",
     "1.x: acceptance (v1_C06_accepts, v1_C06_history_decided, v1_C06_value_last_set_spec) is proved on DbClean databases "
@@ -35,18 +38,24 @@ ASSUMPTIONS = [
     "NaN loudness / main cue / sample rate): v1_C06_setter_stricter_counterexample; they throw and write nothing",
 ]
 MANIFEST_TEXT = (
-    "1.x: 22 theorems (Properties/C06V1.lean) over the statement-level Lean model of the 26 getters / setters of "
-    "engine_track_impl.cpp: every setter that returns normally refines the Spec lens (v1_C06_setter_spec: snapshot after = "
-    "putField of the normalised value, other 24 fields and 7 slots unchanged), get-after-set = Spec.normField, "
-    "Spec-rejected values throw, no setter has undefined behaviour, frame for every ordered pair of independent fields and "
-    "for filename/extension, getter = snapshot field on every state in the invariant Inv, Inv established by "
-    "create_track/update and kept by every setter, other tracks untouched, removed tracks (every setter throws), primary key / UNIQUE(path) / Inv kept by every "
-    "modelled call (v1_C06_table_ok), lifted "
-    "to arbitrary finite setter histories over any number of tracks by induction (v1_C06_history: snapshot after = "
-    "Spec.replay of the successful calls); tied by generated histories over 3 tracks (missing PerformanceData row, "
-    "default grid != adjusted grid, a track removed mid-history) with is_valid, all getters and snapshots observed "
-    "after every step, the model driver re-checking Inv on every written row, and the lens laws evaluated on the real "
-    "library's own answers.")
+    "1.x: 36 theorems (Properties/C06V1.lean, C06V1Accept.lean) over the statement-level Lean model of the 26 getters / "
+    "setters of engine_track_impl.cpp.  What a setter does when it returns normally: it refines the Spec lens "
+    "(v1_C06_setter_spec: snapshot after = putField of the normalised value, other 24 fields and 7 slots unchanged), "
+    "get-after-set = Spec.normField, frame for every ordered pair of independent fields and for filename/extension, getter = "
+    "snapshot field, other tracks untouched, removed tracks, primary key / UNIQUE(path) kept.  WHICH calls return normally: "
+    "v1_C06_accepts (`accepts d id f v` — track exists, PerformanceData row present for blob setters, slot index 0..7, <= 8 "
+    "slots, labels 1..255 bytes, offset neither -1.0 nor NaN, storable grid, no NaN loudness / main cue / rate, path free — "
+    "iff dbSet returns ok) on DbClean databases (v1_C06_clean_db) under the explicit FloatLaw; no call of any history is "
+    "undefined (v1_C06_history_no_ub, dbRunStrict); the Spec replay decides the whole history in both directions "
+    "(v1_C06_history_decided: accepted calls = Spec.callAccepted, final snapshots and analysed flags = Spec.runCalls); the "
+    "headline clause v1_C06_value_last_set(_spec): after h1 ++ [set f v on id] ++ h2 with that call accepted and no later "
+    "accepted call on f or an overlapping field of id, getter f of id returns normField f v; the two normalisations linked "
+    "(v1_C06_normField_normFields) and their only acceptance difference characterised (v1_C06_accepted_iff_fields, "
+    "waveform without sample count: v1_C06_waveform_entry_points_counterexample).  Tied by generated histories over 3 "
+    "tracks (missing PerformanceData row, default grid != adjusted grid, a track removed mid-history, fixed witness "
+    "histories) with is_valid, all getters and snapshots observed after every step; oracles on the real library's own "
+    "answers: lens laws, value-last-set over the whole history, a thrown call changes nothing, and the acceptance predicate; "
+    "FloatLaw sampled on the hardware doubles.")
 TRUSTED_EXTRA = []
 
 GETTERS = ["album", "artist", "average_loudness", "beatgrid", "bitrate", "bpm", "comment", "composer", "duration",
